@@ -194,6 +194,15 @@ def human_rules(ctx: Ctx):
     ctx.instance(rule)
     ok = bool(pairs) and all(k[0] == "elem" and k[1][0] == "call" and k[1][1][0] == "attr" and k[1][1][2] == "items" and v == {0, 1}
                              for k, v in pairs.items())
+    # ... and the rendered pairs are joined with '&'
+    joins = [e for e in r.by_kind("call") if e.func[0] == "attr" and e.func[2] == "join" and e.func[1][0] == "const" and
+             any(t[0] == "call" and t[1][0] == "global" and t[1][2] == "human_quote" for a in e.args for t in deep_walk(r, a))]
+    amp = bool(joins) and all(e.func[1] == ("const", "&") or e.func[1] == ("const", "=") for e in joins) and \
+        any(e.func[1] == ("const", "&") for e in joins)
+    ctx.instance(rule)
+    ctx.ob(rule, fi.qual, "query pair separator", amp,
+           "the rendered query pairs are not joined with '&': the pairs run together and the query no longer re-parses",
+           where(fi, fi.node), sample="'&'.join(pairs)")
     ctx.ob(rule, fi.qual, "query pairs", ok,
            "the query is not rendered from the (key, value) halves of each element of query.items(): with a repeated key a "
            "lookup by key shows the first value every time", where(fi, fi.node), sample="for k, v in self.query.items()")
